@@ -670,3 +670,41 @@ pub fn skip_depth_map<P: Proto, const LIMIT: i8>() {
     core::mem::forget(r);
     core::mem::forget(b);
 }
+
+/// (a') container shapes with CONCRETE leaves (multi-byte varints included) produced by the real
+/// writer, then one symbolic tail byte. The compact instances of `skip_written` (symbolic leaves
+/// = symbolic varint lengths = symbolic offsets) do not reach a verdict for containers; here only
+/// the tail is symbolic, so CBMC folds the offsets and the compact container skipper is decided.
+#[cfg(kani)]
+pub fn skip_concrete<P: Proto, const SHAPE: u8>() {
+    let ty = ttype_of_shape(SHAPE);
+    let leaves = Leaves {
+        b: [true, false],
+        i8s: [-3, 100],
+        i16v: -300,               // zigzag 599: 2-byte varint
+        i32s: [70000, -1],        // 3-byte and 1-byte varints
+        i64v: i64::MIN,           // 10-byte varint
+        dbits: 0x4009_21FB_5444_2D18,
+        uuid: [1, 2, 3, 4, 5, 6, 7, 8, 9, 10, 11, 12, 13, 14, 15, 16],
+        p2: [0xC3, 0x28],
+    };
+    let mut out = BytesMut::with_capacity(64);
+    {
+        let mut w = P::writer(&mut out);
+        write_shape(&mut w, SHAPE, &leaves);
+        P::finish(w);
+    }
+    let written = out.len();
+    let tail: u8 = kani::any();
+    out.put_u8(tail);
+    let mut b = out.freeze();
+    let mut r = P::reader(&mut b);
+    let n = ok(r.skip(ty));
+    kani::assert(n == written, "C07: skip reports the number of bytes of the value");
+    kani::assert(P::remaining(&mut r) == 1, "C07: skip consumes exactly the value");
+    let t0 = ok(r.read_byte());
+    kani::assert(t0 == tail, "C07: what follows is read as if the value had never been there");
+    kani::cover!(true, "reached end");
+    core::mem::forget(r);
+    core::mem::forget(b);
+}
